@@ -4,6 +4,7 @@ import GeoVerif.Model.Clenshaw
 import GeoVerif.Spec.RealInst
 import Mathlib.Tactic.Ring
 import Mathlib.Tactic.Linarith
+import Mathlib.Tactic.FieldSimp
 /-!
 # C01 — direct geodesic problem: table certificates and the Clenshaw theorem
 -/
@@ -32,6 +33,10 @@ theorem c2_table : ((List.range N).all fun i => checkC2 (i + 1)) = true := by de
 Trigonometric polynomials in `φ = 2σ` with coefficients in `ℚ[ε]/ε^{N+1}` (`Series/Trig.lean`: exact product-to-sum
 multiplication, no truncation of harmonics). -/
 
+/-- the trigonometric-series CAS reproduces textbook identities (Pythagoras, Chebyshev `cos 3φ`, a product-to-sum case,
+    the product rule, `sin(φ + ε)` and a first-order Taylor shift) -/
+theorem trig_cas_selftest : trigSelfTest = true := by decide +kernel
+
 /-- **C1′ reverts C1** (Karney 2013, eq. 20–21).  With `τ = σ + B1(2σ)`, `B1(φ) = Σ_{l=1}^{N} C1_l sin lφ`, and
     `σ = τ + B1′(2τ)`, `B1′(φ) = Σ_{l=1}^{N} C1′_l sin lφ`, the composition is the identity modulo `ε^{N+1}`:
     `B1(φ) + Σ_{k=0}^{N} (2·B1(φ))^k/k! · (d/dφ)^k B1′(φ) = 0` in `(ℚ[ε]/ε^{N+1})[cos φ, sin φ]`
@@ -42,6 +47,25 @@ multiplication, no truncation of harmonics). -/
 theorem c1p_reverts_c1 : checkC1p = true := by decide +kernel
 
 /-! ### I3: the tables `A3coeff`, `C3coeff` (bivariate in `n`, `ε`) -/
+
+/-- `(1 − ε)²(1 + k² sin²σ) = 1 − 2ε cos 2σ + ε²` for `k² = 4ε/(1 − ε)²`: the `W²` of `w_series` is `(1 − ε)²` times the radicand -/
+theorem k2_form (ε σ : ℝ) (hε : 1 - ε ≠ 0) :
+    (1 - ε)^2 * (1 + 4 * ε / (1 - ε)^2 * sin σ ^ 2) = 1 - 2 * ε * cos (2 * σ) + ε^2 := by
+  rw [cos_two_mul, cos_sq']
+  field_simp
+  ring
+
+/-- the I3 integrand with `f = 2n/(1 + n)`, `w = √(1 + k² sin²σ)`, `W = (1 − ε) w`, in the form certified by `a3_c3_table` -/
+theorem i3_integrand_form (n ε w : ℝ) (hn : 1 + n ≠ 0) (hε : 1 - ε ≠ 0) (hd : (1 + n) + (1 - n) * w ≠ 0) :
+    (2 - 2 * n / (1 + n)) / (1 + (1 - 2 * n / (1 + n)) * w) =
+      2 * (1 - ε) / ((1 + n) * (1 - ε) + (1 - n) * ((1 - ε) * w)) := by
+  have h1 : 1 + (1 - 2 * n / (1 + n)) * w = ((1 + n) + (1 - n) * w) / (1 + n) := by field_simp; ring
+  have h2 : (1 + n) * (1 - ε) + (1 - n) * ((1 - ε) * w) = (1 - ε) * ((1 + n) + (1 - n) * w) := by ring
+  rw [h1, h2]
+  field_simp
+  ring
+
+example : (1 + (1/10 : ℝ) ≠ 0) ∧ (1 - (1/10 : ℝ) ≠ 0) ∧ ((1 + (1/10 : ℝ)) + (1 - 1/10) * 1 ≠ 0) := by norm_num
 
 /-- the layouts of `A3coeff`/`A3f` and `C3coeff`/`C3f` consume the tables exactly -/
 theorem table_sizes3 : a3Size = Gen.GeodSeries.A3coeff.length ∧ c3Size = Gen.GeodSeries.C3coeff.length := by decide +kernel
